@@ -310,6 +310,28 @@ def run_C16(ctx, proof_ok):
                              "statematrix_wrapper_checks": n3}}
 
 
+def run_C07(ctx, proof_ok):
+    import c07
+
+    E = epg()
+    r = lib.rng(7)
+    n1, d1 = c07.vec_vs_scalar(r, E, budget(ctx.tier, 400, 6000))
+    n2, d2 = c07.axes_placement(r, E, budget(ctx.tier, 40, 800))
+    n3, d3 = c07.incompatible_raise(r, E, budget(ctx.tier, 40, 800))
+    n4, d4 = c07.shapes_vs_model(r, budget(ctx.tier, 400, 10000))
+    n5, d5 = c07.ndim_mismatch_sweep(r, E)
+    ctx.violations.extend(d1 + d2 + d3 + d4 + d5)
+    return {"evaluations": n1 + n2 + n3 + n4 + n5, "distinct_nontrivial": n1 + n2 + n5,
+            "rule": "metamorphic search on the real code: sequences of T/E/P/Phi/R/PD/S/SPOILER whose parameters are arrays over "
+                    "sub-shapes (singleton axes, fewer axes) of a random grid, with identity-named first-order declarations and "
+                    "automatic second order; vectorised simulate() (ADC, Z0, Jacobian, Hessian) vs the scalar simulation at EVERY "
+                    "index of the broadcast grid, output shape = (nADC,)+getshape; `axes=` vs explicit singleton axes; incompatible "
+                    "shapes must raise; common.broadcast_shapes/broadcastable vs the Lean shape model",
+            "samples": [lib.jsonable(c07.describe(c07.gen_case(lib.rng(77))))],
+            "distribution": {"vectorised_cases": n1, "axes_cases": n2, "incompatible_cases": n3, "shape_algebra_cases": n4,
+                             "ndim_mismatch_sweep_cases": n5}}
+
+
 def merge_results(a, b, rule):
     out = dict(a)
     out["evaluations"] = a["evaluations"] + b["evaluations"]
@@ -631,6 +653,18 @@ PROPS["C16"] = {
     "theorems_hint": ["inv_reachable"],
     "partial": ["the Lean state machine is shape-level (arrays by shape, `update`/`link`/`apply` not modelled): values, memory "
                 "independence of copies and the per-array guarantees are checked on the live objects by the correspondence harness"],
+}
+
+PROPS["C07"] = {
+    "lean_modules": ["EpgVerif.Props.C07"],
+    "tie": [],
+    "audit": "EpgVerif/Audit/C07.lean",
+    "run": run_C07,
+    "replay": replay_generic,
+    "theorems_hint": ["broadcast2_spec", "broadcast2_none_iff", "insert_axes_realises_append"],
+    "partial": ["proved: the shape algebra (result spec, failure criterion, commutativity, idempotence), the index lemma behind "
+                "`scalar_prod`/`matrix_prod` (inserted axes + right-aligned broadcasting = left-aligned pairing) and `axes=` placement; "
+                "`vectorised_eq_scalar` for whole programs is the metamorphic search on the real code (every grid index), not a theorem"],
 }
 
 NOT_CLAIMED = {}
